@@ -22,15 +22,23 @@ def _add(c):
     return c
 
 
+def _conc(v, lo, hi):
+    for k in range(lo, hi + 1):
+        if v == k:
+            return k
+    raise AssertionError('out of range')
+
+
 def snap(env, f):
     o = obs_frame_full(env, f)
     o.append([len(f.columns), f._blocks.shape[1], len(f._blocks._dtypes)])
     return o
 
 
-def ref_frame(index, columns, cols_cells):
-    n = len(columns)
-    return ['F', list(index), list(columns), [[cols_cells[c][r] for c in range(n)] for r in range(len(index))],
+def ref_frame(index, table):
+    """table: list of (label, column cells) in column order (no dict: labels may be symbolic)"""
+    n = len(table)
+    return ['F', list(index), [l for l, _ in table], [[table[c][1][r] for c in range(n)] for r in range(len(index))],
             ['i'] * n, None, [n, n, n]]
 
 
@@ -53,11 +61,19 @@ def grow_errors():
 def mk_history(kinds, tier='quick', timeout=240):
     """kinds: tuple of growth-call kinds applied in order."""
     def body(env, **kw):
+        from vf import rt
+        # labels decide accept / reject; they are split by value up front (the library hashes them),
+        # supplied cell values are constants (they only flow), so the rest runs concretely
+        kw = {k: _conc(v, -1, 3) for k, v in kw.items()}
+        for si in range(len(kinds)):
+            kw[f'v{si}'] = 50 + 10 * si
+        return rt.untraced(lambda: run(env, kw))
+
+    def run(env, kw):
         sf = env.sf
         from vf import rt
         index = [10, 11]
-        cols = [0, 1]
-        cells = {0: [100, 101], 1: [200, 201]}
+        table = [(0, [100, 101]), (1, [200, 201])]
         g = rt.untraced(lambda: sf.FrameGO.from_items(((0, env.array([100, 101], 'int64')), (1, env.array([200, 201], 'int64'))), index=index))
         static_src = rt.untraced(lambda: sf.Frame.from_items(((0, env.array([100, 101], 'int64')), (1, env.array([200, 201], 'int64'))), index=index))
         g2 = static_src.to_frame_go()      # static -> grow-only: growth of g2 must never show through static_src
@@ -65,7 +81,6 @@ def mk_history(kinds, tier='quick', timeout=240):
         dsnaps = [snap(env, d) for _, d in derived]
         ssnap = snap(env, static_src)
         trace, exp = [], []
-        order = list(cols)
         for si, kind in enumerate(kinds):
             k = kw[f'k{si}']
             v = kw[f'v{si}']
@@ -106,15 +121,15 @@ def mk_history(kinds, tier='quick', timeout=240):
                 ref_accept = False
             else:
                 labs = [k] + ([kw[f'j{si}']] if kind in ('extend_frame', 'extend_items') else [])
-                ref_accept = all(l not in order for l in labs) and len(set(labs)) == len(labs)
+                held = [l for l, _ in table]
+                ref_accept = all(l not in held for l in labs) and (len(labs) == 1 or labs[0] != labs[1])
             trace.append(accepted)
             exp.append(ref_accept)
             if ref_accept and accepted:
                 for lab, col in new_cols:
-                    order.append(lab)
-                    cells[lab] = col
+                    table.append((lab, col))
             trace.append([snap(env, g), coherent(env, g)])
-            exp.append([ref_frame(index, order, cells), True])
+            exp.append([ref_frame(index, table), True])
             if not ref_accept and not accepted:
                 trace.append(snap(env, g) == before)
                 exp.append(True)
@@ -128,12 +143,13 @@ def mk_history(kinds, tier='quick', timeout=240):
         return trace, exp
     params = []
     for si, kind in enumerate(kinds):
-        params += [(f'k{si}', 'int'), (f'v{si}', 'int')]
+        params += [(f'k{si}', 'int')]
         if kind in ('extend_frame', 'extend_items'):
             params.append((f'j{si}', 'int'))
-    return Cond('framego_' + '__'.join(kinds), params, body,
+    ranges = {p: (-1, 3) for p, _ in params if p[0] in 'kj'}   # labels get hashed (set / dict) by the library: bounded, enumerated by the solver
+    return Cond('framego_' + '__'.join(kinds), params, body, ranges=ranges,
             functions=['FrameGO.__setitem__' if any(k.startswith('setitem') for k in kinds) else 'FrameGO.extend', '_IndexGOMixin.append', 'TypeBlocks.append'],
-            bounds=f'FrameGO 2x2 with int labels; growth calls {kinds}; every new label and value an UNBOUNDED symbolic int (so: new / duplicate of an existing label / duplicate inside the call)',
+            bounds=f'FrameGO 2x2 with int labels; growth calls {kinds}; new labels symbolic in -1..3 (so: new / duplicate of an existing label / duplicate inside the call), supplied values constant',
             route='growth history with derived containers (to_frame, to_frame_go, selection, Frame(fgo)) snapshotted before it', tier=tier, timeout=timeout)
 
 
@@ -170,9 +186,9 @@ def body_indexgo_extend(env, a, b, read):
     return got, exp
 
 
-_add(Cond('indexgo_extend_all_or_nothing', [('a', 'int'), ('b', 'int'), ('read', 'bool')], body_indexgo_extend,
+_add(Cond('indexgo_extend_all_or_nothing', [('a', 'int'), ('b', 'int'), ('read', 'bool')], body_indexgo_extend, ranges={'a': (9, 21), 'b': (9, 21)},
         functions=['_IndexGOMixin.extend', '_IndexGOMixin.append'],
-        bounds='IndexGO [10, 20]; extend([a, b]) with a, b UNBOUNDED symbolic ints; symbolic choice of materialising caches first',
+        bounds='IndexGO [10, 20]; extend([a, b]) with a, b symbolic in 9..21; symbolic choice of materialising caches first',
         route='IndexGO.extend: either both labels are appended or the index is exactly as before; a static Index made from it is unaffected'))
 
 
